@@ -18,7 +18,7 @@ def c12(replay_case=None):
         if c["verdict"] == "ok":
             out.cov["traces_validated_against_impl"] += 1
         n_constructs = sum(1 for e in c["trace"] if e["act"] == "DoConstruct")
-        if n_constructs >= 2 or any(e["act"] in ("DoCrash", "DoEditImp") for e in c["trace"]):
+        if n_constructs >= 2 or any(e["act"] == "DoCrash" or (e["act"] == "DoEdit" and e["arg"] != "root") for e in c["trace"]):
             out.nontrivial(c["name"])
             out.sample({"history": c["name"], "real_replies": [e["reply"] for e in c["trace"]], "cache_after": [e["pst"] + ":" + e["writer"] for e in c["trace"]]})
         rep = {"kind": "cache-history", "name": c["name"], "trace": c["trace"], "tlc": {"verdict": c["verdict"], "at": c["at"], "nontransparent": c["nontransparent"]}}
